@@ -5,10 +5,11 @@ hio.base.tyming.Tymer (virtual tyme), hio.help.timing.Timer, AsyncTimer and Mono
 Case shapes (every float is a float.hex() string, None is null):
   {"cls": "tymer", "dyadic": b, "init": {"now": h?, "dur": h?, "start": h?},
    "ops": [["start", now?, dur?, start?] | ["restart", now?, dur?] | ["wind", now?] | ["read", now?, kind]]}
-  {"cls": "timer" | "atimer" | "mono", "dyadic": b, "clock": [h, ...], "init": {"dur": h, "start": h?, "retro": b},
+  {"cls": "timer" | "atimer" | "mono", "dyadic": b, "clock": [h, ...], ("wall": h for atimer), "init": {"dur": h, "start": h?, "retro": b},
    "ops": [["start", dur?, start?] | ["restart", dur?] | ["read", kind] | ["latest"]]}
 `now` is the tyme of the Tymist the Tymer is wound to when the op happens (null = not wound).
-`clock` is the script of values time.time() returns inside hio.help.timing (0.0 once used up).
+`clock` is the script of values time.time() returns inside hio.help.timing (0.0 once used up); for AsyncTimer it is
+the script of asyncio.get_event_loop().time() and `wall` is what time.time() returns (epoch sized).
 """
 from fractions import Fraction
 from harness.core import coq_list, coq_bool, coq_float, coq_option, coq_res, exn_kind
@@ -21,7 +22,7 @@ COQ_CASE_TYPE = "Timers.case"
 COQ_BRANCHES = ("Timers.case_branches", "Timers.n_branches")
 RULE = ("op sequences on the real Tymer (construct with/without duration/start, wound or not; start, restart, wind, "
         "reads of duration/elapsed/remaining/expired, each at its own tyme incl. rewinds and unwound), Timer, AsyncTimer "
-        "(same model as Timer) and MonoTimer (retro True/False; start, restart, reads, latest) under a scripted time.time() with forward, "
+        "(Timer's model over a scripted event-loop clock, constructor also reading an epoch-sized wall clock) and MonoTimer (retro True/False; start, restart, reads, latest) under a scripted time.time() with forward, "
         "stalled and backward steps; values are dyadic grids (exact arithmetic: the oracle then also checks lossless "
         "restart, no drift and MonoTimer monotonicity in exact rationals) or arbitrary binary64 (0.1 multiples, 1/3, "
         "1e-9, 1e9, epoch-sized, random, occasionally inf/nan/-0.0/subnormal); every result and _start/_stop/_last "
@@ -33,8 +34,8 @@ MODELLED = [
     "time.time() as a scripted list of readings, one consumed per call (fake object bound to hio.help.timing.time)",
     "Tymist/tymth closure as the tyme value passed with each op (None = not wound)",
     "float(x) of a float argument as the identity; Timer/MonoTimer(duration=None) (TypeError, no object) not modelled",
-    "AsyncTimer (a textual copy of Timer over the asyncio loop clock) is run against the Timer model with "
-    "asyncio.get_event_loop().time() reading the same script as time.time()",
+    "AsyncTimer: asyncio.get_event_loop().time() as the scripted list of readings and time.time() (read once by its "
+    "constructor) as a separate epoch-sized wall value of another magnitude",
 ]
 SHARD = 250
 
@@ -70,7 +71,7 @@ def _ty(init, ops, dyadic=True):
     return {"cls": "tymer", "dyadic": dyadic, "init": {"now": _oh(now), "dur": _oh(dur), "start": _oh(start)}, "ops": cops}
 
 
-def _ck(cls, clock, init, ops, dyadic=True):
+def _ck(cls, clock, init, ops, dyadic=True, wall=None):
     dur, start, retro = init
     cops = []
     for o in ops:
@@ -80,8 +81,11 @@ def _ck(cls, clock, init, ops, dyadic=True):
             cops.append(["restart", _oh(o[1])])
         else:
             cops.append(list(o))
-    return {"cls": cls, "dyadic": dyadic, "clock": [H(x) for x in clock],
-            "init": {"dur": H(dur), "start": _oh(start), "retro": bool(retro)}, "ops": cops}
+    c = {"cls": cls, "dyadic": dyadic, "clock": [H(x) for x in clock],
+         "init": {"dur": H(dur), "start": _oh(start), "retro": bool(retro)}, "ops": cops}
+    if cls == "atimer":
+        c["wall"] = H(1.8e9 + 0.123456 if wall is None else wall)
+    return c
 
 
 def _allreads(now):
@@ -139,6 +143,18 @@ def directed():
                    (2.0, None, False), [("read", "elapsed"), ("read", "remaining"), ("read", "expired"), ("start", None, None),
                                         ("read", "duration"), ("restart", None), ("read", "elapsed"), ("read", "expired"),
                                         ("read", "expired")]))
+    # AsyncTimer: wall clock ~1.8e9 (float spacing 2**-22 s) vs a small event-loop clock; the duration given to the
+    # constructor must survive exactly (0.1, 0.3, 0.05, 0.01 are not multiples of 2**-22)
+    for d in (0.1, 0.3, 0.05, 0.01, 0.03125):
+        out.append(_ck("atimer", [0.0, d / 2, d - 5e-8, d, d, d + 5e-8, 2 * d - 5e-8, 2 * d, 3 * d],
+                       (d, None, False), [("read", "duration"), ("read", "elapsed"), ("read", "expired"), ("read", "expired"),
+                                          ("read", "remaining"), ("restart", None), ("read", "duration"), ("read", "elapsed"),
+                                          ("read", "expired"), ("read", "expired"), ("restart", None), ("read", "duration")],
+                       dyadic=False))
+    out.append(_ck("atimer", [1000.5, 1000.55, 1000.6], (0.1, 1000.25, False),
+                   [("read", "duration"), ("read", "expired"), ("start", None, None), ("read", "duration")], dyadic=False))
+    out.append(_ck("atimer", [4.0, 4.5, 5.0, 6.0], (1.5, None, False),
+                   [("read", "duration"), ("read", "remaining"), ("restart", None), ("read", "expired")], wall=2.0 ** 31))
     # MonoTimer: forward, stalled, backward; retro True
     out.append(_ck("mono", [100.0, 100.0, 101.0, 101.0, 99.0, 99.0, 99.5, 90.0, 92.0, 95.0, 95.0],
                    (3.0, None, True), [("read", "elapsed"), ("latest",), ("read", "elapsed"), ("read", "expired"),
@@ -224,7 +240,10 @@ def _gen_tymer(rng, dyadic):
 def _gen_clock(rng, cls, dyadic):
     retro = rng.random() < 0.8
     nops = rng.choice([3, 6, 10, 16, 24])
-    base = (rng.randint(800, 1600) / 8.0) if dyadic else rng.choice([0.0, 100.0, 1.7e9, 1e9, 12345.678]) + rng.random()
+    if cls == "atimer":    # event-loop clock: monotonic-clock sized, far from the wall clock's magnitude
+        base = (rng.randint(0, 1600) / 8.0) if dyadic else rng.choice([0.0, 0.5, 100.0, 4321.0, 86400.0]) + rng.random()
+    else:
+        base = (rng.randint(800, 1600) / 8.0) if dyadic else rng.choice([0.0, 100.0, 1.7e9, 1e9, 12345.678]) + rng.random()
     step = rng.choice([0.125, 0.5, 1.0]) if dyadic else rng.choice([0.1, 1 / 3, 1e-9, 1e-3, 0.7, 1.0])
     clock, t = [], base
     for _ in range(nops + 2 if rng.random() < 0.97 else rng.randint(0, nops)):
@@ -239,6 +258,8 @@ def _gen_clock(rng, cls, dyadic):
             t = _val(rng, dyadic, 0, 200)
         clock.append(t)
     dur = _val(rng, dyadic, 0, 6) if rng.random() < 0.7 else step * rng.randint(0, 6)
+    if cls == "atimer" and not dyadic and rng.random() < 0.6:
+        dur = rng.choice([0.1, 0.3, 0.05, 0.01, 0.2, 1 / 3, 0.7, 1e-3, 2.5e-7, 1e-9])
     start = None if rng.random() < 0.75 else (base + step * rng.randint(-4, 4) if rng.random() < 0.8 else _val(rng, dyadic, 0, 200))
     ops = []
     for _ in range(nops):
@@ -253,8 +274,11 @@ def _gen_clock(rng, cls, dyadic):
         else:
             ops.append(["start", None if rng.random() < 0.5 else H(_val(rng, dyadic, 0, 4)),
                         None if rng.random() < 0.6 else H(base + step * rng.randint(-4, 8))])
-    return {"cls": cls, "dyadic": dyadic, "clock": [H(x) for x in clock],
-            "init": {"dur": H(dur), "start": _oh(start), "retro": retro}, "ops": ops}
+    c = {"cls": cls, "dyadic": dyadic, "clock": [H(x) for x in clock],
+         "init": {"dur": H(dur), "start": _oh(start), "retro": retro}, "ops": ops}
+    if cls == "atimer":    # time.time() of the constructor: epoch sized (dyadic cases: a multiple of 2**10)
+        c["wall"] = H(float(2 ** 20 * rng.randint(1600, 1800)) if dyadic else 1.7e9 + rng.uniform(0, 2e8))
+    return c
 
 
 def generate(rng, tier):
@@ -266,7 +290,7 @@ def generate(rng, tier):
         if r < 0.4:
             out.append(_gen_tymer(rng, dyadic))
         elif r < 0.6:
-            out.append(_gen_clock(rng, "timer" if rng.random() < 0.7 else "atimer", dyadic))
+            out.append(_gen_clock(rng, "timer" if rng.random() < 0.5 else "atimer", dyadic))
         else:
             out.append(_gen_clock(rng, "mono", dyadic))
     return out
@@ -352,11 +376,18 @@ def _run_clock(case):
     real, real_asyncio = timing.time, timing.asyncio
     timing.time = clk
     if case["cls"] == "atimer":
-        class _Aio:                      # asyncio.get_event_loop().time() reads the same script
+        wall = F(case["wall"])
+
+        class _Wall:                     # time.time(): the wall clock, another magnitude than the loop clock
+            @staticmethod
+            def time():
+                return wall
+
+        class _Aio:                      # asyncio.get_event_loop().time() reads the script
             @staticmethod
             def get_event_loop():
                 return clk
-        timing.asyncio = _Aio
+        timing.time, timing.asyncio = _Wall, _Aio
     try:
         kw = {"duration": F(init["dur"])}
         if init["start"] is not None:
@@ -413,6 +444,11 @@ def _oracle_tymer(case, obs):
     start, stop = obs["snap0"]
     start, stop = F(start), F(stop)
     exact = case["dyadic"]
+    init = case["init"]
+    st0 = F(init["start"]) if init["start"] is not None else (F(init["now"]) if init["now"] is not None else 0.0)
+    d0 = F(init["dur"]) if init["dur"] is not None else 0.0
+    if start is None or not _same(start, st0) or not _same(stop, st0 + d0):
+        return f"constructed with ({start!r}, {stop!r}), expected ({st0!r}, {st0 + d0!r})"
     origin = None          # (start0, d, k): last explicit start and number of default restarts since
     if start is not None:
         origin = (start, stop - start, 0)
@@ -495,6 +531,19 @@ def _oracle_clock(case, obs):
     clock = [F(h) for h in case["clock"]]
     snap = [F(h) for h in obs["snap0"]]
     used = len(obs["ticks0"])      # how often the constructor reads the clock is the model's business, not the property's
+    # construction: the period is [start, start + duration] on the timer's own clock
+    d0, st0 = F(case["init"]["dur"]), F(case["init"]["start"])
+    if st0 is None:
+        if not obs["ticks0"]:
+            return "constructor without start did not read the timer's clock"
+        st0 = F(obs["ticks0"][-1])
+    if not _same(snap[0], st0):
+        return f"constructed with _start {snap[0]!r}, expected {st0!r}"
+    if not _same(snap[1], st0 + d0):
+        return (f"constructed with _stop {snap[1]!r} != _start + duration = {st0 + d0!r} "
+                f"(duration {snap[1] - snap[0]!r}, requested {d0!r})")
+    if exact and _finite(st0, d0) and _q(snap[1]) - _q(snap[0]) != _q(d0):
+        return f"constructed duration {snap[1] - snap[0]!r} != requested {d0!r}"
     # period state for MonoTimer monotonicity (exact cases only)
     last_el, latched = None, False
     for n, (o, (r, nsnap, ticks)) in enumerate(zip(case["ops"], obs["steps"])):
@@ -649,6 +698,9 @@ def to_coq(case, obs):
     if mono:
         return (f"(CM {clock} {_fl(init['dur'])} {_ofl(init['start'])} {coq_bool(init['retro'])} "
                 f"{coq_list(ops, 'mop fl')} {snap(obs['snap0'])} {coq_list(steps, 'res (val fl) * msnap')} {obs['unread']}%N)")
+    if case["cls"] == "atimer":
+        return (f"(CA {_fl(case['wall'])} {clock} {_fl(init['dur'])} {_ofl(init['start'])} "
+                f"{coq_list(ops, 'wop fl')} {snap(obs['snap0'])} {coq_list(steps, 'res (val fl) * wsnap')} {obs['unread']}%N)")
     return (f"(CW {clock} {_fl(init['dur'])} {_ofl(init['start'])} "
             f"{coq_list(ops, 'wop fl')} {snap(obs['snap0'])} {coq_list(steps, 'res (val fl) * wsnap')} {obs['unread']}%N)")
 
